@@ -85,7 +85,7 @@ Definition kcase_ok (c: list site * list op * list (option outcome)) : bool :=
 
 (* ---- the defect, in the faithful model: the property's no-field clause is violated ---- *)
 Definition kf_sites : list site :=
-  [Site [0] false true false false false false 0 0; Site [1] false true false false false false 0 0].
+  [Site [0] false true false false false false 0 0 false; Site [1] false true false false false false 0 0 false].
 Definition kf_pre : list op :=
   [Define [] [] [] [0] false; Define [0] [] [] [1] false; Decode 0 [] [0]].
 
@@ -93,8 +93,8 @@ Lemma nofield_inherited_unpacker_refuted :
   (* after C0's unpacker was compiled by any earlier decode ... *)
   nth_error (krun kf_sites (kf_pre ++ [Decode 1 [] [0; 1]])) 3 = Some (Some ONotFound)
   (* ... C1 (eligible, accepts) is skipped, although the property demands it: *)
-  /\ ~ nofield_spec acc_req (defs kf_pre) (Site [1] false true false false false false 0 0) [0; 1] ONotFound
-  /\ nofield_spec acc_req (defs kf_pre) (Site [1] false true false false false false 0 0) [0; 1] (OInst 1)
+  /\ ~ nofield_spec acc_req (defs kf_pre) (Site [1] false true false false false false 0 0 false) [0; 1] ONotFound
+  /\ nofield_spec acc_req (defs kf_pre) (Site [1] false true false false false false 0 0 false) [0; 1] (OInst 1)
   (* and without the earlier decode the same call answers C1: the answer depends on the history *)
   /\ nth_error (krun kf_sites [Define [] [] [] [0] false; Define [0] [] [] [1] false; Decode 1 [] [0; 1]]) 2 = Some (Some (OInst 1)).
 Proof.
